@@ -510,7 +510,8 @@ long long c_delineate_flowpathlengths_in_catchment(long long nrows,
             length += sqrt(squaredist);
         }
 
-        if(*idxcell_down < 0)
+        /* No path if we leave the grid or start from the outlet */
+        if(*idxcell_down < 0 || idxcells_area[i] == idxcell_outlet)
             length = 0;
 
         /* Store flow path length */
